@@ -487,7 +487,7 @@ Hypothesis verify_depth_stmt :
       | CNone => False
       end.
 
-Section Module.
+Section OneModule.
 Variable prog : list rinstr.
 Variable exct : list (nat * nat).
 Variable metas : list fmeta.
@@ -617,7 +617,7 @@ Proof.
   split; [exact B|]. eapply chain_bound. exact (inv_chain _ _ _ I).
 Qed.
 
-End Module.
+End OneModule.
 End FromC07.
 
 (* ------------------------------------------------------------------ the theorems of C13 (VM side)
